@@ -81,4 +81,25 @@ theorem C05_delivered_with_last_byte (m : Nat) (pre post : Bytes) (o n : Nat)
       · rw [← hrest]; exact hok
       · rw [← hrest]; omega
 
+/-- **Calls compose, from any decoder state** (not only a fresh decoder): the results of `calls ++ more`
+are the results of `calls` followed by the results of `more` fed to the state `calls` left behind, and
+the final states agree.  With `C05_chunking_independent` this makes a session of `on_data` calls a
+monoid action on decoder states: a caller may stop after any call, hand the decoder to other code and
+have it continued there, with no difference to the result.  No hypothesis on `s` (it may hold a cached
+header, leftover bytes, any processed count). -/
+theorem C05_calls_compose (m : Nat) (s : PyDec) (calls more : List Bytes) :
+    pyFeed m s (calls ++ more) =
+      ((pyFeed m s calls).1 ++ (pyFeed m (pyFeed m s calls).2 more).1,
+        (pyFeed m (pyFeed m s calls).2 more).2) := by
+  induction calls generalizing s with
+  | nil => simp [pyFeed]
+  | cons d ds ih =>
+    simp only [List.cons_append, pyFeed, ih, List.append_assoc]
+
+/-- Empty calls are invisible, in any state and at any place of a session. -/
+theorem C05_empty_call_invisible (m : Nat) (s : PyDec) (calls more : List Bytes) :
+    pyFeed m s (calls ++ [] :: more) = pyFeed m s (calls ++ more) := by
+  rw [C05_calls_compose, C05_calls_compose]
+  simp [pyFeed, pyOnData]
+
 end FeVerif
